@@ -1,8 +1,9 @@
 /-
   C10 — local grids hold exactly the points inside the cutoff sphere, for any grid type.
 
-  Model: `Model/LocalGrid.lean` (hand-written state machine, tied to the code by differential
-  op histories, harness/props/c10.py).  Helper lemmas: `Lemmas/LocalGrid.lean`.
+  Model: `Model/LocalGrid.lean` (hand-written state machine; `Props/C10/Gen.lean` proves it equal
+  to the definitions generated from basegrid.py, and differential op histories compare those with
+  the implementation, harness/props/c10.py).  Helper lemmas: `Lemmas/LocalGrid.lean`.
 
   The theorems about the state machine hold for *any* carrier `K` with the operations the model
   uses (no field axioms are needed: the ball query is specified by the model's own comparison
